@@ -41,8 +41,8 @@ ANCHORS = [
 
 def plan(tier):
     if tier == "quick":
-        return {"shards": 16, "specs": 130, "mutants": 3, "values": 8, "timeout": 300}
-    return {"shards": 16, "specs": 6000, "mutants": 4, "values": 10, "timeout": 3000}
+        return {"shards": 16, "specs": 130, "mutants": 3, "values": 8, "timeout": 900}
+    return {"shards": 16, "specs": 6000, "mutants": 4, "values": 10, "timeout": 7200}
 
 
 def lookalike_of(rng, value):
